@@ -1616,6 +1616,45 @@ MODULE_FUNCS = {
     "numpy.stack": lambda ex, st, a, k, n: __import__("pyvc.cplx", fromlist=["x"]).np_stack(ex, st, a, k, n),
     "numpy.linalg.norm": lambda ex, st, a, k, n: __import__("pyvc.cplx", fromlist=["x"]).np_linalg_norm(ex, st, a, k, n),
 }
+
+
+def m_deque(ex, st, args, kwargs, node):
+    """collections.deque(iterable): a new double-ended queue holding the iterable's items in order - modelled as a (value-semantic) sequence;
+    popleft / append / len / iteration are the list operations.  maxlen is not modelled."""
+    if kwargs or len(args) > 1:
+        raise _U("deque with maxlen", node)
+    if not args:
+        return _out(PyList([]), st)
+    v = args[0]
+    if isinstance(v, ty.SeqV):
+        return _out(ty.SeqV(v.elem, v.arrs, v.len), st)
+    if isinstance(v, PyList):
+        return _out(PyList(list(v.items)), st)
+    raise _U(f"deque of {v!r}", node)
+
+
+ARANGE_AT = z3.Function("np_arange_at", z3.RealSort(), z3.RealSort(), z3.IntSort(), z3.RealSort())      # (start, step, k) -> start + k * step
+
+
+def m_np_arange(ex, st, args, kwargs, node):
+    """np.arange(start, stop, step) for a positive real step (A-LIB): a sequence r of n >= 0 reals with r[k] = start + k*step < stop; n = 0 iff
+    stop <= start.  The product k*step is kept behind an uninterpreted function with its LINEAR consequences only (first entry, strictly
+    increasing, below stop, at least start) - all the verified code relies on."""
+    if kwargs or len(args) != 3:
+        raise _U("np.arange other than (start, stop, step)", node)
+    a, b, h = (ty.to_real(_num(ex, st, x, node)) for x in args)
+    ex.safety(st, "np.arange-positive-step (encoding; a zero step raises ZeroDivisionError)", h > 0, node)
+    n = z3.Int(ty.fresh_name("arange_n"))
+    k, k2 = z3.Int(ty.fresh_name("ak")), z3.Int(ty.fresh_name("ak2"))
+    at = lambda kk: ARANGE_AT(a, h, kk)
+    st.assume(z3.And(n >= 0, (n == 0) == (b <= a), at(z3.IntVal(0)) == a))
+    st.assume(ty.FA([k], z3.Implies(z3.And(k >= 0, k < n), z3.And(at(k) >= a, at(k) < b)), patterns=[at(k)]))
+    st.assume(ty.FA([k, k2], z3.Implies(z3.And(k >= 0, k < k2, k2 < n), at(k) < at(k2)), patterns=[z3.MultiPattern(at(k), at(k2))]))
+    return _out(ty.SeqV(ty.Real, [z3.Lambda([k], at(k))], n), st)
+
+
+MODULE_FUNCS["collections.deque"] = m_deque
+MODULE_FUNCS["numpy.arange"] = m_np_arange
 MODULE_CONSTS = {}
 
 
